@@ -243,9 +243,9 @@ func (c *ExtCtx) setField(p Val, name string, v string) {
 }
 
 const (
-	pkgStatus = "google.golang.org/grpc/status"
+	pkgStatus  = "google.golang.org/grpc/status"
 	pkgIStatus = "google.golang.org/grpc/internal/status"
-	pkgCodes  = "google.golang.org/grpc/codes"
+	pkgCodes   = "google.golang.org/grpc/codes"
 )
 
 func init() {
@@ -312,4 +312,163 @@ func (ex *Exec) sentinel(st *State, pkg, name string) string {
 	ga := ex.globalAddr(g)
 	v := ex.load(st, ga)
 	return v.T
+}
+
+const (
+	pkgTypes    = "types"
+	pkgStats    = "google.golang.org/grpc/stats"
+	pkgEncoding = "google.golang.org/grpc/encoding"
+	pkgMem      = "google.golang.org/grpc/mem"
+	pkgMetadata = "google.golang.org/grpc/metadata"
+	pkgGrpc     = "google.golang.org/grpc"
+)
+
+func init() {
+	externalDocs["context.CancelFunc"] = "calling a context.CancelFunc/CancelCauseFunc f makes the context cancels(f) done"
+}
+
+func isCancelFuncType(t types.Type) bool {
+	if n, ok := types.Unalias(t).(*types.Named); ok && n.Obj().Pkg() != nil && n.Obj().Pkg().Path() == "context" {
+		return n.Obj().Name() == "CancelFunc" || n.Obj().Name() == "CancelCauseFunc"
+	}
+	return false
+}
+
+// cancelCall: calling a context.CancelFunc marks the context it cancels as done.
+func (ex *Exec) cancelCall(st *State, f Val) {
+	st.write("ctxdone", "Bool", "(cancels "+f.T+")", "true")
+}
+
+func (c *ExtCtx) newCtx(parent Val, prefix string) Val {
+	ref := c.ex.allocRef()
+	c.st.assume("(= (ctx_parent " + ref + ") " + parent.T + ")")
+	c.st.write("ctxdone", "Bool", ref, c.st.read("ctxdone", "Bool", parent.T))
+	return c.ex.mkVal(parent.Typ, ref)
+}
+
+func (c *ExtCtx) newCancel(ctx Val, t types.Type) Val {
+	f := c.ex.allocRef()
+	c.st.assume("(= (cancels " + f + ") " + ctx.T + ")")
+	return c.ex.mkVal(t, f)
+}
+
+func init() {
+	// ---------- transports (A-transport) ----------
+	ext("("+pkgTypes+".RpcReadWriter).Write", "RpcReadWriter.Write(ctx,rpc): any error; the attempt is counted in ncalls (wire log)", func(c *ExtCtx) Val {
+		return c.fresh(0, "write.err")
+	})
+	ext("("+pkgTypes+".RpcReadWriter).Read", "RpcReadWriter.Read(ctx): (rpc, err) with err == nil ==> rpc != nil  (A-transport: no nil envelope without an error)", func(c *ExtCtx) Val {
+		r := c.fresh(0, "read.rpc")
+		e := c.fresh(1, "read.err")
+		c.st.assume("(=> (= " + e.T + " 0) (distinct " + r.T + " 0))")
+		c.st.assume("(>= " + r.T + " 0)")
+		return c.tuple(r, e)
+	})
+
+	// ---------- context (A-ctx) ----------
+	ext("(context.Context).Done", "ctx.Done(): a channel that is closed iff the context is done", func(c *ExtCtx) Val {
+		v := c.mk(0, "(ctx_donech "+c.args[0].T+")")
+		v.Origin = "ctxdone:" + c.args[0].T
+		return v
+	})
+	ext("(context.Context).Err", "ctx.Err(): non-nil iff the context is done (monotone); then Canceled or DeadlineExceeded", func(c *ExtCtx) Val {
+		c.ex.observeCtx(c.st)
+		e := c.fresh(0, "ctxerr")
+		st := c.st
+		dl := c.ex.sentinel(st, "context", "DeadlineExceeded")
+		cn := c.ex.sentinel(st, "context", "Canceled")
+		st.assume("(= (distinct " + e.T + " 0) " + st.read("ctxdone", "Bool", c.args[0].T) + ")")
+		st.assume("(=> (distinct " + e.T + " 0) (and (or (= " + e.T + " " + dl + ") (= " + e.T + " " + cn + ")) (not (isStatus " + e.T + "))))")
+		return e
+	})
+	ext("(context.Context).Deadline", "ctx.Deadline(): (ctx_deadline(ctx), ctx_hasdl(ctx))", func(c *ExtCtx) Val {
+		t := c.ex.symVal(c.st, c.resType(0), "deadline")
+		return c.tuple(t, c.mk(1, "(ctx_hasdl "+c.args[0].T+")"))
+	})
+	ext("context.Background", "context.Background(): a context that is never done", func(c *ExtCtx) Val {
+		v := c.mk(0, "ctx_background")
+		c.st.assume("(> ctx_background 0)")
+		return v
+	})
+	withCancel := func(c *ExtCtx) Val {
+		ctx := c.newCtx(c.args[0], "ctx")
+		return c.tuple(ctx, c.newCancel(ctx, c.resType(1)))
+	}
+	ext("context.WithCancel", "WithCancel(p): fresh child c (parent(c)==p, done(p) ==> done(c)) and a cancel function for c", withCancel)
+	ext("context.WithCancelCause", "WithCancelCause(p): as WithCancel", withCancel)
+	ext("context.WithTimeout", "WithTimeout(p,d): fresh child with a deadline (ctx_hasdl), ctx_timeout(c)==d, and a cancel function", func(c *ExtCtx) Val {
+		ctx := c.newCtx(c.args[0], "ctx")
+		c.st.assume("(ctx_hasdl " + ctx.T + ")")
+		c.st.assume("(= (ctx_timeout " + ctx.T + ") " + c.args[1].T + ")")
+		return c.tuple(ctx, c.newCancel(ctx, c.resType(1)))
+	})
+	ext("context.WithDeadline", "WithDeadline(p,t): fresh child with a deadline and a cancel function", func(c *ExtCtx) Val {
+		ctx := c.newCtx(c.args[0], "ctx")
+		c.st.assume("(ctx_hasdl " + ctx.T + ")")
+		return c.tuple(ctx, c.newCancel(ctx, c.resType(1)))
+	})
+	ext("context.Cause", "context.Cause(ctx): non-nil if the context is done", func(c *ExtCtx) Val {
+		c.ex.observeCtx(c.st)
+		e := c.fresh(0, "cause")
+		c.st.assume("(=> " + c.st.read("ctxdone", "Bool", c.args[0].T) + " (distinct " + e.T + " 0))")
+		return e
+	})
+
+	// ---------- stats handlers ----------
+	ext("("+pkgStats+".Handler).TagRPC", "stats.Handler.TagRPC(ctx,info): returns a context whose parent is ctx (F1: no goat state touched)", func(c *ExtCtx) Val {
+		return c.newCtx(c.args[1], "tagged")
+	})
+	ext("("+pkgStats+".Handler).TagConn", "stats.Handler.TagConn(ctx,info): returns a context whose parent is ctx", func(c *ExtCtx) Val {
+		return c.newCtx(c.args[1], "tagged")
+	})
+	ext("("+pkgStats+".Handler).HandleRPC", "stats.Handler.HandleRPC(ctx,ev): no effect on goat state; counted per event type", func(c *ExtCtx) Val {
+		if ev := c.args[2]; ev.Dyn != nil {
+			c.st.bump("HandleRPC:" + typeKey(ev.Dyn.Typ))
+		} else if kv, ok := c.ex.known[ev.T]; ok && kv.Dyn != nil {
+			c.st.bump("HandleRPC:" + typeKey(kv.Dyn.Typ))
+		}
+		return c.unit()
+	})
+	ext("("+pkgStats+".Handler).HandleConn", "stats.Handler.HandleConn(ctx,ev): no effect on goat state; counted per event type", func(c *ExtCtx) Val {
+		if ev := c.args[2]; ev.Dyn != nil {
+			c.st.bump("HandleConn:" + typeKey(ev.Dyn.Typ))
+		}
+		return c.unit()
+	})
+
+	// ---------- codec / mem ----------
+	ext(pkgEncoding+".GetCodecV2", "encoding.GetCodecV2: a non-nil codec", func(c *ExtCtx) Val {
+		v := c.fresh(0, "codec")
+		c.st.assume("(distinct " + v.T + " 0)")
+		return v
+	})
+	ext("("+pkgEncoding+".CodecV2).Marshal", "codec.Marshal(m): (bs, err); err == nil ==> bsContent(bs) == protoBytes(m)", func(c *ExtCtx) Val {
+		bs := c.fresh(0, "marshal.bs")
+		e := c.fresh(1, "marshal.err")
+		c.st.assume("(=> (= " + e.T + " 0) (= (bsContent " + bs.T + ") (protoBytes " + c.args[1].T + ")))")
+		return c.tuple(bs, e)
+	})
+	ext("("+pkgEncoding+".CodecV2).Unmarshal", "codec.Unmarshal(bs,m): any error; writes only *m (not goat state)", func(c *ExtCtx) Val {
+		return c.fresh(0, "unmarshal.err")
+	})
+	ext("("+pkgMem+".BufferSlice).Materialize", "BufferSlice.Materialize(): the concatenated bytes, as value bsContent(bs)", func(c *ExtCtx) Val {
+		return c.mk(0, "(bsContent "+c.args[0].T+")")
+	})
+	ext("("+pkgMem+".BufferSlice).Len", "BufferSlice.Len(): fresh non-negative int", func(c *ExtCtx) Val {
+		v := c.fresh(0, "bslen")
+		c.st.assume("(>= " + v.T + " 0)")
+		return v
+	})
+	ext(pkgMem+".NewBuffer", "mem.NewBuffer(&data,pool): a buffer b with bufContent(b) == data", func(c *ExtCtx) Val {
+		d := c.ex.load(c.st, c.args[0])
+		b := c.fresh(0, "buf")
+		c.st.assume("(distinct " + b.T + " 0)")
+		c.st.assume("(= (bufContent " + b.T + ") " + d.T + ")")
+		return b
+	})
+	ext(pkgGrpc+".NewContextWithServerTransportStream", "grpc.NewContextWithServerTransportStream(ctx,s): child context carrying s", func(c *ExtCtx) Val {
+		ctx := c.newCtx(c.args[0], "stsctx")
+		c.st.assume("(= (ctx_sts " + ctx.T + ") " + c.args[1].T + ")")
+		return ctx
+	})
 }
